@@ -456,6 +456,14 @@ func init() {
 		reg(&explore.Suite{Name: fmt.Sprintf("memsnap3-d%d", d), Cfg: sim.Config{Voters: 3, Spares: 1, SnapAt: 2}, Seed: seedLeader3, Monitors: snapMonitors,
 			Budget: sim.Budget{Timeouts: 1, Elapses: 1, Beats: 1, Writes: 2, Members: 1, Cuts: 1, Crashes: 1, Restarts: 1, Reorders: -1, Splits: 1, Deviations: d}})
 	}
+	// S-minority5, untimed (C05): leader n0 keeps only n1 (2 of 5 voters); n2 leads
+	// term 2 with n3 and n4.
+	minRead5 := append(append([]sim.Event{}, seedLeader5...), sim.MustParse("cut n0 a=2", "cut n0 a=3", "cut n0 a=4", "cut n1 a=2", "cut n1 a=3", "cut n1 a=4",
+		"timeout n2", "rt 2>3:RV#0 a=2", "rt 2>4:RV#0 a=2", "rt 2>3:RV#1", "rt 2>4:RV#1", "rt 2>3:AE#0", "rt 2>4:AE#0", "rt 2>3:AE#1", "rt 2>4:AE#1")...)
+	for d := 0; d <= 4; d++ {
+		reg(&explore.Suite{Name: fmt.Sprintf("minread5-d%d", d), Cfg: sim.Config{Voters: 5}, Seed: minRead5,
+			Budget: sim.Budget{Beats: 3, Writes: 1, Reads: 1, Reorders: -1, Splits: 1, Deviations: d}})
+	}
 	for d := 0; d <= 4; d++ {
 		reg(&explore.Suite{Name: fmt.Sprintf("nvread5-d%d", d), Cfg: sim.Config{Voters: 3, Spares: 2}, Seed: seedNonVoters, Monitors: memberMonitors,
 			Budget: sim.Budget{Beats: 1, Writes: 1, Reads: 1, Reorders: -1, Splits: 1, Deviations: d}})
